@@ -20,7 +20,7 @@ ID = "C08"
 LEVEL = "exploration"
 BATCH = 40
 PROBES_EXPECTED = ['probe:stored-choice-default-checked', 'probe:upgrade/sdkconfig', 'probe:upgrade/kconfig', 'probe:stored-default-checked', 'probe:context-free-mismatch', 'probe:promptless-entries', 'probe:used-instance', 'probe:default-injected']
-TIERS = {"quick": {"runs": 7000, "wall": 50}, "thorough": {"runs": 300000, "wall": 840}}
+TIERS = {"quick": {"runs": 12000, "wall": 50}, "thorough": {"runs": 300000, "wall": 840}}
 RULE = ("each run draws a program (and for the upgrade clause an evolved version: changed defaults/conditions/ranges/prompt conditions, "
         "added/removed options), a policy (sdkconfig/kconfig), a prefix history reaching a configuration whose file F is written, optionally a "
         "'used instance' history executed by both twins before the load, and an edit history applied to both twins after it; "
@@ -42,10 +42,10 @@ LEVEL_TEXT = "Seeded exploration of (program, version pair, policy, history) wit
 
 def generate(r, tier):
     big = tier == "thorough"
-    prog = kgen.gen_program(r, hi=18 if big else 11)
+    prog = kgen.gen_program(r, hi=18 if big else 11, p_shuffle=0.5)
     sc = {"prog": prog, "hash_salt": r.getrandbits(32), "policy": r.choice(["sdkconfig", "kconfig", None])}
     sc["mode"] = r.choice(["same", "same", "upgrade", "upgrade", "upgrade"])
-    sc["prog2"] = kgen.evolve(r, prog) if sc["mode"] == "upgrade" else None
+    sc["prog2"] = kgen.evolve(r, prog, pair_bias=0.35) if sc["mode"] == "upgrade" else None
     sc["parser"] = 1 if (sc["prog2"] and not kgen.v2_ok(sc["prog2"])) else kgen.pick_parser(r, prog, 0.05)
     sc["prefix"] = ops.gen_history(r, prog, r.randint(0, 12), weights={"read": 3, "save": 0, "load": 0, "restart": 2, "load_hand": 0}, sane=0.9)
     tgt = sc["prog2"] or prog
